@@ -447,6 +447,48 @@ func c19StructCase(seed int64, idx int) (string, c19Case) {
 	return "", cs
 }
 
+// c19HostHistory: result slices of earlier Call / Func calls stay what they were while later calls run (the
+// histories of C09, judged here as part of the host API's contract).
+func c19HostHistory(seed int64, idx int) (string, c19Case) {
+	what, trace := c09HostHistory(seed, idx)
+	return what, c19Case{Kind: "host-history", Seed: seed, Idx: idx, Args: trace}
+}
+
+// c19ShadowNative: natives the host registers under package-level names, among them names that are also
+// predeclared (print, println): a script's bare use of the name reaches the registered native with its arguments.
+func c19ShadowNative(seed int64, idx int) (string, c19Case) {
+	rng := core.Derive(seed, "c19-shadow", idx)
+	cs := c19Case{Kind: "shadow-native", Seed: seed, Idx: idx}
+	m := core.NewMachine(core.VMOpts{Optimize: rng.Bool(), Obs: core.NewObs(core.SmallBudget, false, nil)})
+	var got []string
+	reg := func(name string, k int) {
+		m.VM.Set("main."+name, goatlang.NewFunc(2, 1, func(v *goatlang.VM, args []goatlang.Value) goatlang.Value {
+			got = append(got, fmt.Sprintf("%s(%s,%s)", name, args[0].String(), args[1].String()))
+			return goatlang.Int(args[0].Int()*k + args[1].Int())
+		}))
+	}
+	names := []string{"trace", "print", "println", "emit"}
+	for i, n := range names {
+		reg(n, i+2)
+	}
+	a, b := rng.Intn(90)+1, rng.Intn(9)
+	use := core.Pick(rng, names)
+	cs.Script = fmt.Sprintf("func label(n int) int { x := %s(n, %d); return x + 1 }\nr := label(%d) + trace(1, 1)\nr", use, b, a)
+	o := m.Eval(nil, cs.Script)
+	k := 2
+	for i, n := range names {
+		if n == use {
+			k = i + 2
+		}
+	}
+	want := fmt.Sprint(a*k + b + 1 + 3)
+	wantCalls := fmt.Sprintf("[%s(%d,%d) trace(1,1)]", use, a, b)
+	if o.Failed() || len(o.Rets) != 1 || o.Rets[0] != want || fmt.Sprint(got) != wantCalls || o.Out != "" {
+		return fmt.Sprintf("a native registered as main.%s: the script got %v %s (stdout %q), natives saw %v; expected %s and %s", use, o.Rets, core.ErrFirstLine(o.Err)+o.Panic, o.Out, got, want, wantCalls), cs
+	}
+	return "", cs
+}
+
 // c19EchoCase: natives whose result slice is (part of) the argument slice they were handed.
 func c19EchoCase(seed int64, idx int) (string, c19Case) {
 	rng := core.Derive(seed, "c19-echo", idx)
@@ -934,10 +976,10 @@ out := run(); out`, strings.Join(xs, ", "))
 }
 
 func runC19(r *core.Run) {
-	r.SetRule("(1) constructor -> accessor round trips over random and boundary values for Int/Int32/Uint/Uint32/Int8/Byte/Uint8/Float64 (bit patterns)/Bool/String (incl. invalid UTF-8)/Nil/NewSlice/NewMap/Wrap; (2) natives of each of the six NewFunc forms x arity 0-6 x results 0-4 x variadic surplus 0-3 called by scripts as a statement, with multi-assign, inside 1 + f(..)*2, as an argument of another native and in a loop with live locals, recording value, type, order and count of what they receive; (3) Call and Func on functions, variadic functions and a bound method value with every requested result count 0..declared; (4) errors raised in natives (string and error panics), in script code called back from natives, three levels deep, inside loops; VM usable afterwards; (5) re-entrant sort comparators; (8) NewStruct with and without initialisers next to script-made instances of the same type (own fields, stated values, zero values); (9) natives whose results are or overlap the argument slice they were given (returned as is, a tail of it, swapped in place, the fixed part of a variadic one); (7) names whose meaning changes between host calls (function defined again with another variadic-ness, Set again, function variable reassigned) reached through Call and Func, and methods fetched from instances with GetAttr; (6) one native re-entered 1-5 levels deep through script code it calls back (Call and Func), each activation re-reading its arguments after the nested one returned; natives are also called as the sole operand of return in a forwarding function, the variadic form with its surplus spread from a slice. non-trivial = every case; distinct by (kind, parameters)")
+	r.SetRule("(1) constructor -> accessor round trips over random and boundary values for Int/Int32/Uint/Uint32/Int8/Byte/Uint8/Float64 (bit patterns)/Bool/String (incl. invalid UTF-8)/Nil/NewSlice/NewMap/Wrap; (2) natives of each of the six NewFunc forms x arity 0-6 x results 0-4 x variadic surplus 0-3 called by scripts as a statement, with multi-assign, inside 1 + f(..)*2, as an argument of another native and in a loop with live locals, recording value, type, order and count of what they receive; (3) Call and Func on functions, variadic functions and a bound method value with every requested result count 0..declared; (4) errors raised in natives (string and error panics), in script code called back from natives, three levels deep, inside loops; VM usable afterwards; (5) re-entrant sort comparators; (8) NewStruct with and without initialisers next to script-made instances of the same type (own fields, stated values, zero values); (10) histories of host calls whose result slices are all read again after every later call; (11) natives registered under package-level names that are also predeclared (print, println), used by bare name; (9) natives whose results are or overlap the argument slice they were given (returned as is, a tail of it, swapped in place, the fixed part of a variadic one); (7) names whose meaning changes between host calls (function defined again with another variadic-ness, Set again, function variable reassigned) reached through Call and Func, and methods fetched from instances with GetAttr; (6) one native re-entered 1-5 levels deep through script code it calls back (Call and Func), each activation re-reading its arguments after the nested one returned; natives are also called as the sole operand of return in a forwarding function, the variadic form with its surplus spread from a slice. non-trivial = every case; distinct by (kind, parameters)")
 	r.Assume("the harness knows what it passed and built; misuse the API documents as undefined (negative result counts, lying about argc) is not judged")
 	n := r.N(20000, 400000)
-	kinds := []func(int64, int) (string, c19Case){c19StructCase, c19EchoCase, c19RoundTrip, c19NativeCase, c19NativeCase, c19NativeCase, c19CallCase, c19ErrorCase, c19SortCase, c19ReentrantCase, c19RebindCase}
+	kinds := []func(int64, int) (string, c19Case){c19StructCase, c19EchoCase, c19HostHistory, c19ShadowNative, c19RoundTrip, c19NativeCase, c19NativeCase, c19NativeCase, c19CallCase, c19ErrorCase, c19SortCase, c19ReentrantCase, c19RebindCase}
 	core.Parallel((n+99)/100, func(chunk int) {
 		for i := chunk * 100; i < (chunk+1)*100 && i < n; i++ {
 			f := kinds[i%len(kinds)]
@@ -976,7 +1018,7 @@ func replayC19(r *core.Run, v *core.Violation) {
 	if err := remarshal(v.Case, &cs); err != nil {
 		return
 	}
-	kinds := []func(int64, int) (string, c19Case){c19StructCase, c19EchoCase, c19RoundTrip, c19NativeCase, c19NativeCase, c19NativeCase, c19CallCase, c19ErrorCase, c19SortCase, c19ReentrantCase, c19RebindCase}
+	kinds := []func(int64, int) (string, c19Case){c19StructCase, c19EchoCase, c19HostHistory, c19ShadowNative, c19RoundTrip, c19NativeCase, c19NativeCase, c19NativeCase, c19CallCase, c19ErrorCase, c19SortCase, c19ReentrantCase, c19RebindCase}
 	what, c2 := kinds[cs.Idx%len(kinds)](cs.Seed, cs.Idx)
 	fmt.Printf("%+v\n", c2)
 	if what != "" {
